@@ -109,7 +109,9 @@ fn scenarios_of(prop: &str, tier: Tier) -> Vec<HScn> {
                         }
                     }
                 }
-                v.push(hscn("hist", y, false, c, Some(1), 48));
+                // three actions on the two workflows with the widest histories: at quiescent points only
+                let d = if !q && (y == W2 || y == W4) { 0 } else { 1 };
+                v.push(hscn("hist", y, false, c, Some(d), 48));
                 if !q {
                     v.push(hscn("hist", y, true, full_cfg(2), Some(2), 48));
                 }
